@@ -542,8 +542,14 @@ impl RevocationRegistry {
             }
         }
 
+        // the accumulator holds tail `max_cred_num + 1 - idx` for every issued index `idx`
+        let tail_indexes: BTreeSet<u32> = issued.iter().map(|idx| max_cred_num + 1 - idx).collect();
         let rev_reg = Self {
-            accum: Tail::accum_indexes(&cred_rev_pub_key.g_dash, &rev_key_priv.gamma, issued)?,
+            accum: Tail::accum_indexes(
+                &cred_rev_pub_key.g_dash,
+                &rev_key_priv.gamma,
+                &tail_indexes,
+            )?,
         };
 
         trace!("RevocationRegistry::for_issued: <<< rev_reg: {:?}", rev_reg);
